@@ -228,8 +228,11 @@ def run_case(case):
             from spyne import Service
             mixin = type('MixinSvc', (Service,), {})
             for e, a, b in svc_listeners:
-                mixin.event_manager.add_listener(e, a)
+                # one listener shared with the other base (B), one of its own
+                # (M): the subclass must run the union A, B, M -- B once
                 mixin.event_manager.add_listener(e, b)
+                mixin.event_manager.add_listener(e,
+                                            tr.listener('service', e, 'M'))
             return [mixin]
 
     uni = Universe(Streams(case['useed'])['universe'], on_service=on_service,
@@ -344,10 +347,20 @@ def judge(case, tr, uni, info, is_fault, mname):
             else:
                 ok = False
                 break
+            has_m = False
+            if i < len(evs) and evs[i][3] == 'M' and evs[i][2] == name:
+                has_m = True
+                i += 1
+            want_m = (lvl == 'service' and case['dup'] and mname == 'sub')
+            if has_m != want_m:
+                ok = False
+                break
+            raised = False
             if i < len(evs) and evs[i][3] == 'R' and evs[i][2] == name:
                 group.append(evs[i])
+                raised = True
                 i += 1
-            firings.append((name, e[0], e[4], len(group) == 3))
+            firings.append((name, e[0], e[4], raised))
         if not ok:
             viol('listener-order:%s' % lvl, 'listeners on the %s manager did '
                  'not run as [A, B] once each per event: %s' % (lvl,
